@@ -37,6 +37,9 @@ func isOpaqueStruct(t types.Type) bool {
 	if n.Obj().Pkg() == nil {
 		return false
 	}
+	if _, isStruct := n.Underlying().(*types.Struct); !isStruct {
+		return false
+	}
 	p := n.Obj().Pkg().Path()
 	switch p {
 	case "sync", "sync/atomic":
@@ -202,6 +205,7 @@ type Val struct {
 	S []Term   // scalar slots per Layout(T)
 	P *PtrVal  // engine-level pointer (T is a pointer type); S unused
 	F *Closure // engine-level function value
+	Re func(ii intInfo) Term // untyped integer expressions (T == nil): rebuild at a given integer type
 }
 
 func (v Val) One() Term {
